@@ -52,20 +52,35 @@ def envarg(setting, level):
     return {"absent": None, "true": True, "named": PREFIX[level] if level is not None else FNAMED, "false": False}[setting]
 
 
+STYLE = ["attr"]        # how the schema of the current job is put together (set by run_job)
+DISPLAY = "CCV7 Shown Name"
+
+
 def build(cc, ssets, fset, depth, kind, with_default):
-    """top-down construction; returns (root schema, field)"""
+    """top-down construction; returns (root schema, field)
+    styles: 'attr' (explicit nested Schema objects assigned by attribute), 'auto' (nested levels created on first
+    attribute access), 'item' (the field is stored with one dotted item path), 'named-field' ('attr' with a display name)"""
     k = dict(KINDS, **CONTAINER_KINDS)[kind]
+    style = STYLE[0]
     root = cc.Schema(env=envarg(ssets[0], 0))
-    cur = root
-    for lvl in range(1, depth):
-        sub = cc.Schema(env=envarg(ssets[lvl], lvl))
-        setattr(cur, KEYS[lvl - 1], sub)
-        cur = sub
     kw = {"env": {"absent": None, "true": True, "named": FNAMED, "false": False}[fset]}
     if with_default:
         kw["default"] = k["default"]
+    if style == "named-field":
+        kw["name"] = DISPLAY
     field = k["mk"](cc, **kw)
-    setattr(cur, FKEY, field)
+    if style == "item":
+        root[".".join(KEYS[: depth - 1] + [FKEY])] = field
+    else:
+        cur = root
+        for lvl in range(1, depth):
+            if style == "auto":
+                cur = getattr(cur, KEYS[lvl - 1])
+            else:
+                sub = cc.Schema(env=envarg(ssets[lvl], lvl))
+                setattr(cur, KEYS[lvl - 1], sub)
+                cur = sub
+        setattr(cur, FKEY, field)
     root.witness = cc.IntField(default=1, env=False)
     return root, field
 
@@ -107,7 +122,10 @@ def ref_name(ssets, fset, depth):
 def plausible_names(depth):
     F = FKEY.upper()
     parts = [PREFIX[0], PREFIX[1], PREFIX[2], KEYS[0].upper(), KEYS[1].upper()]
-    names = {F, FNAMED, "_" + F, FKEY}
+    names = {F, FNAMED, "_" + F, FKEY, DISPLAY.upper(), DISPLAY, DISPLAY.upper().replace(" ", "_")}
+    for pre in (PREFIX[0], PREFIX[0] + "_" + KEYS[0].upper(), PREFIX[1]):
+        names.add(pre + "_" + DISPLAY.upper())
+        names.add(pre + "_" + DISPLAY.upper().replace(" ", "_"))
     for r in range(1, 4):
         for combo in itertools.permutations(parts, r):
             names.add("_".join(combo) + "_" + F)
@@ -157,6 +175,15 @@ def jobs(tier):
     for depth in (1, 2, 3):
         for ssets in itertools.product(SCHEMA_SET, repeat=depth):
             out.append({"name": "d%d/%s" % (depth, "-".join(ssets)), "depth": depth, "ssets": list(ssets), "kinds": list(KINDS), "tier": tier})
+    few = ["int", "str"] if tier != "thorough" else list(KINDS)
+    for depth in (2, 3):
+        for root in SCHEMA_SET:
+            ssets = [root] + ["absent"] * (depth - 1)
+            for style in ("auto", "item"):
+                out.append({"name": "%s/d%d/%s" % (style, depth, "-".join(ssets)), "depth": depth, "ssets": ssets, "kinds": few, "tier": tier, "style": style})
+    for depth in (1, 2):
+        for ssets in itertools.product(SCHEMA_SET, repeat=depth):
+            out.append({"name": "named-field/d%d/%s" % (depth, "-".join(ssets)), "depth": depth, "ssets": list(ssets), "kinds": few, "tier": tier, "style": "named-field"})
     out.append({"name": "containers", "depth": 0, "containers": True, "tier": tier})
     return out
 
@@ -171,6 +198,7 @@ def run_job(job, ctx):
         return
     only = job.get("only")
     depth, ssets = job["depth"], job["ssets"]
+    STYLE[0] = job.get("style", "attr")
     for fset in FIELD_SET:
         for kind in job["kinds"]:
             for with_default in (False, True):
@@ -214,7 +242,7 @@ def _world(ctx, job, cc, depth, ssets, fset, kind, with_default, var, only_hist)
     _setenv({})
     schema0, field0 = build(cc, ssets, fset, depth, kind, with_default)
     reported = field0.env if isinstance(field0.env, str) and field0.env else None
-    fpb = "C14|d%d|%s|field=%s|%s|" % (depth, "-".join(ssets), fset, kind)
+    fpb = "C14|%sd%d|%s|field=%s|%s|" % ("" if STYLE[0] == "attr" else STYLE[0] + "|", depth, "-".join(ssets), fset, kind)
     key = [fset, kind, with_default, var]
 
     def bad(what, msg, hist=None):
